@@ -61,9 +61,17 @@ class BoundarySource:
             return 0xFF if self.n % 2 else 0x00
         if p == "lowhigh":
             return 0x0F if self.n % 2 else 0xF0
+        if p == "adjacent":
+            return 0x00
+        if p == "adjacent-high":
+            return 0xFF
         return p
 
     def bv(self, name, n):
+        if self.pat in ("adjacent", "adjacent-high") and n:
+            self.k = getattr(self, "k", -1) + 1          # successive keys differ in their last bits only
+            base = 0x00 if self.pat == "adjacent" else 0xFF
+            return bytes([base] * (n - 1)) + bytes([(base ^ self.k) & 0xFF])
         return bytes(self._byte() for _ in range(n))
 
     def atom(self, name, n):
@@ -189,7 +197,7 @@ def run_obligation(ob, timeout_s=600):
         builder = _resolve(ob["builder"])
         params = ob.get("params", {})
         # native boundary runs (plain CPython, real keccak): a failing one is a replayable counterexample by itself
-        for pat in (0x00, 0xFF, "alt", "lowhigh"):
+        for pat in (0x00, 0xFF, "alt", "lowhigh", "adjacent", "adjacent-high"):
             bsrc = BoundarySource(pat)
             try:
                 bargs = builder(bsrc, **params)
